@@ -429,6 +429,7 @@ type c19Child struct {
 	w        *sysboot.World
 	cdc      *sysboot.CDC
 	storeEvs atomic.Int64
+	failAt   atomic.Int64 // absolute ordinal of the store call to fail (0: none)
 	storePut atomic.Int64
 	episode  int
 	prior    []string
@@ -514,9 +515,14 @@ func (c *c19Child) reset(ep int) {
 		WrapStore: func(f serverapi.MetaStoreFactory) serverapi.MetaStoreFactory {
 			return sysboot.WrapStore(f, func(ev sysboot.StoreEvent) sysboot.StoreDecision {
 				if ev.Phase == "before" {
-					c.storeEvs.Add(1)
+					n := c.storeEvs.Add(1)
 					if ev.Op == "put" || ev.Op == "delete" {
 						c.storePut.Add(1)
+					}
+					if f := c.failAt.Load(); f > 0 && n == f {
+						c.run.Count("injected_store_failures", 1)
+						c.run.Distinct("failed_store_call", fmt.Sprintf("%s %s", ev.Op, ev.Kind))
+						return sysboot.StoreDecision{Fail: "injected store failure"}
 					}
 				}
 				return sysboot.StoreDecision{}
@@ -644,6 +650,10 @@ func (c *c19Child) one(idx int) {
 		return
 	}
 	ev0, put0 := c.storeEvs.Load(), c.storePut.Load()
+	if req.FailAt > 0 {
+		c.failAt.Store(ev0 + int64(req.FailAt))
+	}
+	defer c.failAt.Store(0)
 	type answer struct{ r sysboot.Response }
 	ch := make(chan answer, 1)
 	go func() { ch <- answer{c.cdc.Post(req.Method, req.Body)} }()
